@@ -274,6 +274,51 @@ def body_tick(h, op, t):
         h.prove('no_trap_means_no_error', lnot(zero))
 
 
+def body_tick_instruction_contract(h, kind):
+    """tick against the CONTRACT of an instruction function instead of one body: every `_exec_*` contract (c_cpu_*) allows
+    exactly three outcomes - it returns, it raises Trapped(code), or it raises ZeroDivisionError (the host's, from / // % **
+    with a zero divisor or base).  Whatever instruction that is, tick must not let the exception escape, must report the
+    matching run-time error exactly once and must record the failing instruction's address for RESUME."""
+    cpu = new_cpu(h, [])
+    cpu.module = _Mod()
+    size = h.int('size', 1, 9)
+    code_len = h.int('code_len', 1, 1 << 20)
+    h.require(cpu.pc < code_len)
+    cpu.module.code = h.symlist('code', code_len, lambda hh, i: 0) if h.symbolic else [0] * min(code_len, 4096)
+    cpu.trapped_addr = h.int('stale_trapped_addr', 0, 1 << 20)
+    pc0 = cpu.pc
+    code = [TrapCode.INVALID_CELL_VALUE, TrapCode.TYPE_MISMATCH, TrapCode.INDEX_OUT_OF_RANGE, TrapCode.DEVICE_ERROR][
+        ['trapped_overflow', 'trapped_type', 'trapped_index', 'trapped_device'].index(kind)] if kind.startswith('trapped') else None
+
+    def instruction():
+        if kind == 'zero':
+            raise ZeroDivisionError('float division by zero')
+        if code is not None:
+            raise Trapped(trap_code=code, trap_kwargs={})
+    cpu._exec_abstractinstruction = instruction
+    trapped = []
+    if h.symbolic:
+        h.set_call('qvm.cpu.QvmCpu.get_current_instruction', lambda interp, f, args, kw: (_Instr('abstractinstruction'), [], size))
+        h.set_call('qvm.cpu.QvmCpu._trap', lambda interp, f, args, kw: trapped.append((args[1], kw, args[0].trapped_addr)))
+    else:
+        cpu.get_current_instruction = lambda: (_Instr('abstractinstruction'), [], size)
+        cpu._trap = lambda c, **kw: trapped.append((c, kw, cpu.trapped_addr))
+    out = h.call(cpu.tick)
+    if not out.returned:
+        h.prove('tick_never_raises', False, detail=repr(out))
+        return
+    h.prove('pc_advanced_by_instruction_size', same(cpu.pc, pc0 + size))
+    if kind == 'returns':
+        h.prove('no_error_reported', not trapped)
+        return
+    h.prove('error_reported_exactly_once', len(trapped) == 1)
+    if len(trapped) != 1:
+        return
+    c, kw, taddr = trapped[0]
+    h.prove('error_category', c == (TrapCode.DIVISION_BY_ZERO if kind == 'zero' else code))
+    h.prove('trapped_addr_is_failing_instruction', same(taddr, pc0))
+
+
 def body_tick_interrupt(h):
     cpu = new_cpu(h, [])
     cpu.module = _Mod()
@@ -386,6 +431,8 @@ CONTRACTS = [
     Contract('cpu._trap', PROPS, ['qvm.cpu:QvmCpu._trap'], body_trap,
              cases=[(c, m, a) for c in TrapCode for m in ('none', 'label', 'next', 'next-nodebug') for a in (False, True)]),
     Contract('cpu.tick', PROPS, ['qvm.cpu:QvmCpu.tick'], body_tick, cases=[('idiv', t) for t in INTEGRAL] + [('mod', CT.INTEGER)]),
+    Contract('cpu.tick.instruction_contract', PROPS, ['qvm.cpu:QvmCpu.tick'], body_tick_instruction_contract,
+             cases=[(k,) for k in ('returns', 'zero', 'trapped_overflow', 'trapped_type', 'trapped_index', 'trapped_device')]),
     Contract('cpu.tick.interrupt', ['C07'], ['qvm.cpu:QvmCpu.tick'], body_tick_interrupt),
     Contract('cpu.trap_kwargs', ['C07'], ['qvm.cpu:QvmCpu._trap', 'qvm.cpu:QvmCpu.trap'], body_trap_kwargs,
              trusted=['syntactic cross-function check over the AST of qvm/cpu.py, qvm/machine.py, qvm/cell.py (no solver)']),
